@@ -34,6 +34,9 @@ def obligations(ctx, tier):
                 out += core.g_row(K, PROP, inh(A, m), arith.reps(A, "T", (lambda A=A: lambda W, env: ("val", W.wrap(A, env[0].v)))()))
             for m in ("from_be", "to_be"):
                 out += core.g_row(K, PROP, inh(A, m), arith.reps(A, "T", (lambda A=A: lambda W, env: ("val", W.wrap(A, swap(W, A, env[0].v))))()))
+            from analysis import audit
+            for m in ("from_le", "to_le", "from_be", "to_be", "from_be_slice", "from_le_slice"):
+                out += core.p_minus(K, PROP, inh(A, m), set(), audit.default())
             from .c10 import B_
             for m in ("from_be_slice", "from_le_slice"):
                 out += core.g_row(K, PROP, inh(A, m), [("empty", lambda W: {0: B_([])}, (lambda A=A: lambda W, env: ("some", W.wrap(A, 0)))())])
